@@ -149,14 +149,16 @@ def check_port(case, r: R):
     with r.lib('series-composition'):
         zs_ = open_circuit_impedance(rs.lib_network(ser), fresh[1], n2)
         want = zx + rs.gq(Zs)
-        if want:
+        # negative resistances are legal: a series element that cancels the port impedance to within rounding (or a shunt
+        # admittance that cancels 1/Z) makes the composed network singular for any float solver - not judged
+        if want and abs(complex(want)) > 1e-6 * (abs(complex(zx)) + abs(complex(*Zs))):
             compare_z(r, 'series-composition', zs_, want, scale + abs(complex(*Zs)), f'Z + {Zs}')
     if zx:
         Yp = case['yp']
         sh = copy.deepcopy(net)
         sh['branches'].append({'id': fresh[0], 'n1': n2, 'n2': n1, 'kind': 'admittance', 'p': {'Y': Yp}})
         den = GQ(1) / zx + rs.gq(Yp)
-        if den:
+        if den and abs(complex(den)) > 1e-6 * (abs(complex(GQ(1) / zx)) + abs(complex(*Yp))):
             with r.lib('shunt-composition'):
                 zp = open_circuit_impedance(rs.lib_network(sh), n1, n2)
                 compare_z(r, 'shunt-composition', zp, GQ(1) / den, scale, f'Z || 1/{Yp}')
